@@ -314,7 +314,7 @@ func filterParams(ps []*Param, name string) []*Param {
 
 var structKinds = []string{"endpoint:remove", "consumes:remove", "param:add-required", "param:optional->required", "param:in-change",
 	"param:collectionFormat-change", "param:collectionFormat(omitted->pipes)", "param(header):collectionFormat(omitted->ssv)", "body.property:add-required", "body.property:becomes-required", "body:add-required", "body:optional->required",
-	"param(header):optional->required", "param(formData):optional->required", "body.property(first):add-required"}
+	"param(header):optional->required", "param(formData):optional->required", "body.property(first):add-required", "consumes(operation):remove"}
 var respKinds = []string{"response:remove", "response.property:remove", "response.header:remove", "response.enum:grow",
 	"response.property(nested):remove", "response.enum(ref):grow", "response.property(last):remove", "response.property(last,ref):remove"}
 
@@ -355,6 +355,14 @@ func structural(g *G, base *Spec, kind string) *CatEdit {
 		b := a.Clone()
 		b.Consumes = []string{"application/json"}
 		e.A, e.B, e.Witness = a, b, "request with Content-Type application/xml"
+	case "consumes(operation):remove":
+		// the operation's own list overrides the document's: a media type removed there is removed for that operation
+		pi, op := pickOp(g, a, true)
+		op.Params = append(filterParams(op.Params, "body"), &Param{Name: "body", In: "body", Required: true, Chain: []*Simple{{}}, Schema: &Schema{Type: []string{"object"}}})
+		op.OpConsumes = []string{"application/json", "application/xml"}
+		b := a.Clone()
+		findOp(b, pi.URL, op.Method).OpConsumes = []string{"application/json"}
+		e.A, e.B, e.Witness = a, b, "request to this operation with Content-Type application/xml"
 	case "param:add-required":
 		pi, op := pickOp(g, a, false)
 		op.Params = filterParams(op.Params, "w")
